@@ -83,6 +83,7 @@ class Instr:
         self.memo_ids = set()
         self.stale_hits = []
         self.stale_addr = []
+        self.own_hits = 0
         self.stale_tensors = set()
         self.stale_addr_keys = set()
         self.wc, self.tn = wc, tn
@@ -115,6 +116,8 @@ class Instr:
                 t = orig_get(wcc)
                 if t is not None and id(t) in self.stale_tensors:
                     self.stale_hits.append(getattr(wcc, "weight_value_id", None) in self.memo_ids)
+                elif t is not None:
+                    self.own_hits += 1
                 return t
 
             cw.get_tensor_with_same_compression = staticmethod(get)
@@ -152,6 +155,7 @@ class Instr:
     def begin_step(self):
         self.stale_hits, self.stale_addr = [], []
         self.greedy_ties = 0
+        self.own_hits = 0
         cw = getattr(self.wc, "CompressedWeightCache", None)
         cache = getattr(cw, "cache", None)
         self.stale_tensors = {id(t) for t in cache.values()} if isinstance(cache, dict) else set()
@@ -223,7 +227,7 @@ def run_step(step, instr, nets_cache):
         "digest": hashlib.sha256(res.out_model).hexdigest() if res.out_model else "-",
         "figures": figures_of(res.csv) if step["entry"] == "main" else None,
         "debugdb": dbg,
-        "stale_hits": list(instr.stale_hits), "stale_addr": list(instr.stale_addr), "greedy_ties": instr.greedy_ties,
+        "stale_hits": list(instr.stale_hits), "stale_addr": list(instr.stale_addr), "greedy_ties": instr.greedy_ties, "own_hits": instr.own_hits,
         "dupnames": detnets.has_duplicate_names(net),
         "src_ops": [o.kind for o in net.ops],
         "model": res.out_model if step.get("keep_model") else None,
@@ -618,6 +622,8 @@ def main():
                 ck.count("runs_with_cross_compilation_weight_cache_hit")
             if o["stale_addr"]:
                 ck.count("runs_assigning_an_address_to_an_identity_left_by_an_earlier_run")
+            if o.get("own_hits"):
+                ck.count("runs_with_weight_cache_hit_inside_the_compilation")
             if o.get("greedy_ties"):
                 ck.count("runs_with_indistinguishable_live_ranges_in_the_greedy_allocator")
             add(s["net"], s["opts"], o, {"scenario": sc, "step_index": j, "step": s, "fresh": j == 0})
